@@ -259,5 +259,19 @@ def main(argv=None):
     return cmd_check(argv[0], argv[1] if len(argv) > 1 else os.environ.get("VERIF_TIER", "quick"))
 
 
+def safe_main(argv=None):
+    """Anything escaping the harness is a harness error (exit 2), never a verdict."""
+    try:
+        return main(argv)
+    except SystemExit:
+        raise
+    except BaseException as e:  # noqa: BLE001
+        import traceback
+
+        traceback.print_exc()
+        print(f"HARNESS-ERROR: {type(e).__name__}: {e}")
+        return 2
+
+
 if __name__ == "__main__":
-    sys.exit(main())
+    sys.exit(safe_main())
